@@ -140,6 +140,22 @@ def run_suite(name, tier, seed, fp):
     with open(trace, "wb") as f:
         p = subprocess.run([harness_bin()] + SUITE_ARGS[name] + ["--seed", str(seed), "--tier", tier], stdout=f, stderr=subprocess.PIPE, timeout=7200)
     crashed = p.returncode != 0
+    # a crash (memory fault, abort) ends the process in the middle of a case: the incomplete last line marks the case;
+    # the run is resumed with the next catalog type so that the other types are still covered
+    restarts = 0
+    while p.returncode != 0 and restarts < 12 and name != "portable":
+        with open(trace, "rb") as f:
+            data = f.read()
+        last = data.rstrip(b"\n").split(b"\n")[-1].decode("utf-8", "replace")
+        fields = last.split(" ")
+        if len(fields) < 2 or not fields[1].isdigit():
+            break
+        if not data.endswith(b"\n"):
+            with open(trace, "ab") as f:
+                f.write(b"\n")
+        restarts += 1
+        with open(trace, "ab") as f:
+            p = subprocess.run([harness_bin()] + SUITE_ARGS[name] + ["--seed", str(seed), "--tier", tier, "--from", str(int(fields[1]) + 1)], stdout=f, stderr=subprocess.PIPE, timeout=7200)
     # corpus of recorded cases (witnesses of known findings and of repaired defects) runs with every suite
     cp = os.path.join(VERIF, "corpus", name + ".txt")
     if os.path.exists(cp) and not crashed:
@@ -299,7 +315,9 @@ def proj_C02(lhs, o, t):
     if o["cls"] == "ok":
         return ("ok", o.get("v"), o.get("s"), o.get("in"), o.get("rv"), o.get("w"))
     return (o["cls"],)
-def oracle_C02(lhs, o, t):
+def oracle_C02(lhs, o, t, om):
+    if o["cls"] in ("MEMFAULT", "PANIC") and om.get("cls") == "err":
+        return f"the process aborted while this slice was mapped and read through the accessors; the reference rejects it ({om.get('kind')}@{om.get('pos')}), so it was either accepted or validation itself crashed"
     if o["cls"] != "ok":
         return None
     n = bytes_len(lhs)
@@ -871,6 +889,8 @@ def lean_obligations(prop, cfg, thorough):
 # ------------------------------------------------------------------------------------------------
 # known findings
 # ------------------------------------------------------------------------------------------------
+# properties that themselves promise "never panics / aborts / faults": a crash of the harness process is their violation
+CRASH_IS_VIOLATION = {"C01", "C07", "C08", "C09", "C10", "C14", "C15"}
 SUITE_PARSE = {"bytes": parse_rhs, "emplace": parse_emp, "ops": parse_emp, "io": parse_io, "aio": parse_io, "portable": parse_port}
 
 def load_known():
@@ -965,7 +985,7 @@ def check_property(prop, tier, seed):
                     stats["nontrivial"].add(hashlib.md5((lhs.split(" ", 1)[1]).encode()).digest()[:8])
                 if len(stats["samples"]) < 6 and not trivial and stats["cases"] % 997 == 3:
                     stats["samples"].append(dict(case=lhs, implementation=rhs[:300], model=mo[:300]))
-            if m["crashed"] and not any(f.what.startswith("from_bytes/validate ended with MEMFAULT") for f in oracle_findings):
+            if m["crashed"] and prop in CRASH_IS_VIOLATION and not any("MEMFAULT" in f.what for f in oracle_findings):
                 oracle_findings.append(Finding(prop, "oracle", sname, cases[-1][0] if cases else "?", "process crashed rc=%s" % m["rc"], "", "the harness process crashed (memory fault or abort) while running this case: " + m["stderr"][-300:]))
     if "post" in cfg and group_cases:
         for (sname, lhs, rhs, mo, what) in cfg["post"](group_cases):
